@@ -130,6 +130,7 @@ def run(repo: Repo) -> Result:
         # variables bound from match.group(...)
         var_groups: dict[str, set] = {}
         var_starts: dict[str, set] = {}
+        var_full: dict[str, set] = {}
         for st in walk_no_nested(f.node):
             if isinstance(st, ast.Assign) and len(st.targets) == 1 and isinstance(st.targets[0], ast.Name):
                 g = _group_of_group_call(repo, mod, st.value)
@@ -138,6 +139,9 @@ def run(repo: Repo) -> Result:
                 b, k, sg = _start_expr(repo, mod, st.value)
                 if k is not None and b is None:
                     var_starts.setdefault(st.targets[0].id, set()).add((k, sg))
+                if k is not None and b is not None:
+                    # `start_index = <parent>.start_index + match.start(G)` computed once per match
+                    var_full.setdefault(st.targets[0].id, set()).add((b, k, sg))
         for c in calls(f.node, nested=True):
             if not (isinstance(c.func, ast.Name) and c.func.id == "Token"):
                 continue
@@ -168,6 +172,8 @@ def run(repo: Repo) -> Result:
             # start
             s = b["start_index"]
             base, kind, sg = _start_expr(repo, mod, s)
+            if kind is None and isinstance(s, ast.Name) and s.id in var_full and len(var_full[s.id]) == 1 and s.id not in var_starts:
+                base, kind, sg = next(iter(var_full[s.id]))
             if kind is None and isinstance(s, ast.Name) and s.id in var_starts:
                 starts = var_starts[s.id]
                 kind, sg = next(iter(starts)) if len(starts) == 1 else (None, None)
